@@ -83,6 +83,10 @@ struct Op {
     /// number of exported @test functions this operation adds
     adds_tests: u32,
     tags: Vec<String>,
+    /// hook H5: a generator created by this operation that is reachable from the exports and whose
+    /// body has raised by the end of the operation: (key in `StepOut::gens`, model request)
+    #[serde(default)]
+    gen_check: Option<(String, String)>,
 }
 
 impl Op {
@@ -114,6 +118,10 @@ struct StepOut {
     /// probe results L / R (empty when probes were not run after this op)
     probes: Vec<String>,
     ref_probes: Vec<String>,
+    /// hook H5: stack sizes of every generator VM reachable from the exports of L
+    /// (`export:<name>` / `reg:<key>`)
+    #[serde(default)]
+    gens: Vec<(String, (usize, usize, usize, usize, usize))>,
 }
 
 #[derive(Clone, Debug, Serialize, Deserialize)]
@@ -261,6 +269,39 @@ fn run_probes(k: &mut Koto, mod_dir: &str) -> Vec<String> {
     out
 }
 
+/// hook H5: the generator VMs reachable from the exports (directly, or as values of the exported
+/// `reg` map)
+fn reachable_generators(k: &Koto) -> Vec<(String, (usize, usize, usize, usize, usize))> {
+    let name = |v: &KValue| match v {
+        KValue::Str(s) => s.as_str().to_string(),
+        _ => String::new(),
+    };
+    kvh::catch(|| {
+        let mut out = vec![];
+        for (key, v) in k.exports().data().iter() {
+            match v {
+                KValue::Iterator(i) => {
+                    if let Some(sz) = i.verif_generator_stack_sizes() {
+                        out.push((format!("export:{}", name(key.value())), sz));
+                    }
+                }
+                KValue::Map(m) if name(key.value()) == "reg" => {
+                    for (k2, v2) in m.data().iter() {
+                        if let KValue::Iterator(i) = v2 {
+                            if let Some(sz) = i.verif_generator_stack_sizes() {
+                                out.push((format!("reg:{}", name(k2.value())), sz));
+                            }
+                        }
+                    }
+                }
+                _ => {}
+            }
+        }
+        out
+    })
+    .unwrap_or_default()
+}
+
 fn exec_history(h: &History, probe_every: bool) -> HistOut {
     let mut l = new_instance(h.limit_ms);
     let mut r = new_instance(h.limit_ms);
@@ -293,6 +334,7 @@ fn exec_history(h: &History, probe_every: bool) -> HistOut {
             ref_exports: exports_canon(&r),
             probes,
             ref_probes,
+            gens: reachable_generators(&l),
         });
     }
     // a truly fresh instance performing only the completed effects
@@ -529,6 +571,7 @@ fn setup_op() -> Op {
         ok_value: None,
         residue_class: String::new(),
         adds_tests: 0,
+        gen_check: None,
         tags: vec!["setup".into()],
     }
 }
@@ -552,6 +595,7 @@ fn gen_run_op(rng: &mut Rng, k: usize, allow_import: bool) -> Op {
                 ok_value: None,
                 residue_class: String::new(),
                 adds_tests: 0,
+                gen_check: None,
                 tags: vec!["run-ok".into()],
             }
         }
@@ -573,6 +617,7 @@ fn gen_run_op(rng: &mut Rng, k: usize, allow_import: bool) -> Op {
                 ok_value: None,
                 residue_class: if builder { "builder".into() } else { String::new() },
                 adds_tests: 0,
+                gen_check: None,
                 tags: vec!["run-fail".into(), format!("kind={}", fk.name), format!("carrier={}", ca.name), "catch=no".into()],
             }
         }
@@ -597,6 +642,7 @@ fn gen_run_op(rng: &mut Rng, k: usize, allow_import: bool) -> Op {
                 ok_value: Some(format!("ok:s{}", kvh::hex(b"caught"))),
                 residue_class: if builder { "builder".into() } else { String::new() },
                 adds_tests: 0,
+                gen_check: None,
                 tags: vec!["run-caught".into(), format!("kind={}", fk.name), format!("carrier={}", ca.name), "catch=yes".into()],
             }
         }
@@ -612,6 +658,7 @@ fn gen_run_op(rng: &mut Rng, k: usize, allow_import: bool) -> Op {
             ok_value: None,
             residue_class: String::new(),
             adds_tests: 0,
+            gen_check: None,
             tags: vec!["compile-error".into()],
         },
         4 => {
@@ -632,6 +679,7 @@ fn gen_run_op(rng: &mut Rng, k: usize, allow_import: bool) -> Op {
                 ok_value: None,
                 residue_class: String::new(),
                 adds_tests: 1,
+                gen_check: None,
                 tags: vec!["failed-test".into()],
             }
         }
@@ -694,6 +742,7 @@ fn gen_import_op(rng: &mut Rng, k: usize, eff: &str, eff_ev: &str) -> Op {
             ok_value: None,
             residue_class: String::new(),
             adds_tests: 0,
+            gen_check: None,
             tags: vec!["import-ok".into()],
         };
     }
@@ -710,6 +759,7 @@ fn gen_import_op(rng: &mut Rng, k: usize, eff: &str, eff_ev: &str) -> Op {
             ok_value: None,
             residue_class: class.into(),
             adds_tests: 0,
+            gen_check: None,
             tags: vec!["import-fail".into(), format!("module={name}"), "catch=yes".into()],
         }
     } else {
@@ -725,6 +775,7 @@ fn gen_import_op(rng: &mut Rng, k: usize, eff: &str, eff_ev: &str) -> Op {
             ok_value: None,
             residue_class: class.into(),
             adds_tests: 0,
+            gen_check: None,
             tags: vec!["import-fail".into(), format!("module={name}"), "catch=no".into()],
         }
     }
@@ -743,6 +794,7 @@ fn gen_call_op(rng: &mut Rng, _k: usize) -> Op {
         ok_value: None,
         residue_class: class.into(),
         adds_tests: 0,
+        gen_check: None,
         tags: vec![tag.into()],
     };
     match rng.weighted(&[14, 10, 8, 6, 8, 8, 8, 4, 4, 6, 4]) {
@@ -786,6 +838,7 @@ fn gen_tostring_op(rng: &mut Rng, k: usize) -> Op {
         ok_value: None,
         residue_class: String::new(),
         adds_tests: 0,
+        gen_check: None,
         tags: vec![tag.into()],
     }
 }
@@ -830,7 +883,22 @@ fn gen_body(k: usize, yields: usize, fail: Option<&str>) -> String {
 }
 
 /// storage: 0 exported, 1 stored in an exported container, 2 captured by an exported function
-fn gen_generator_op(k: usize, storage: usize, fail_stmt: &str, fail_name: &str, yields: usize, caught: bool, live: &mut Vec<LiveGen>) -> Op {
+fn gen_model_request(yields: usize, fail_events: &str) -> String {
+    // resumption 1 executes NewFrame and runs to the first yield, …, the last one raises
+    let mut groups: Vec<String> = vec![];
+    for i in 0..yields {
+        groups.push(if i == 0 { "nf:3".to_string() } else { String::new() });
+    }
+    groups.push(if yields == 0 { format!("nf:3 {fail_events}") } else { fail_events.to_string() });
+    format!("gen {}", groups.join(" / "))
+}
+
+fn gen_generator_op(k: usize, storage: usize, fail_stmt: &str, fail_name: &str, fail_events: &str, yields: usize, caught: bool, live: &mut Vec<LiveGen>) -> Op {
+    let gen_check = match storage {
+        0 => Some((format!("export:g_{k}"), gen_model_request(yields, fail_events))),
+        1 => Some((format!("reg:g_{k}"), gen_model_request(yields, fail_events))),
+        _ => None,
+    };
     let (store, iter_expr, lg) = match storage {
         0 => (format!("export g_{k} = gen_{k}()\n"), format!("g_{k}"), LiveGen { access: Some(format!("g_{k}")), nx: None }),
         1 => (
@@ -866,6 +934,7 @@ fn gen_generator_op(k: usize, storage: usize, fail_stmt: &str, fail_name: &str, 
             ok_value: Some(format!("ok:s{}", kvh::hex(b"caught"))),
             residue_class: String::new(),
             adds_tests: 0,
+            gen_check: gen_check.clone(),
             tags: vec!["generator-outlives".into(), format!("kind={fail_name}"), format!("gen-storage={storage}"), format!("gen-yields={yields}"), "catch=yes".into()],
         }
     } else {
@@ -884,6 +953,7 @@ fn gen_generator_op(k: usize, storage: usize, fail_stmt: &str, fail_name: &str, 
             ok_value: None,
             residue_class: String::new(),
             adds_tests: 0,
+            gen_check: gen_check.clone(),
             tags: vec!["generator-outlives".into(), format!("kind={fail_name}"), format!("gen-storage={storage}"), format!("gen-yields={yields}"), "catch=no".into()],
         }
     }
@@ -903,6 +973,7 @@ fn gen_next_op(rng: &mut Rng, lg: &LiveGen) -> Op {
         ok_value: Some(value.to_string()),
         residue_class: String::new(),
         adds_tests: 0,
+        gen_check: None,
         tags: vec!["generator-next-after-failure".into(), tag.into()],
     };
     match (&lg.access, &lg.nx) {
@@ -925,6 +996,7 @@ fn gen_next_op(rng: &mut Rng, lg: &LiveGen) -> Op {
                     ok_value: Some("ok:null".into()),
                     residue_class: String::new(),
                     adds_tests: 0,
+                    gen_check: None,
                     tags: vec!["generator-next-after-failure".into(), "via=host-call".into()],
                 }
             } else {
@@ -970,6 +1042,7 @@ fn gen_recover_op(rng: &mut Rng, k: usize) -> Op {
         ok_value: Some(expect),
         residue_class: String::new(),
         adds_tests: 0,
+        gen_check: None,
         tags: vec!["callee-recovers-inside-callers-builder".into(), format!("kind={}", fk.name)],
     }
 }
@@ -990,7 +1063,7 @@ fn gen_history(rng: &mut Rng, mod_dir: &str, max_native_err: usize) -> History {
                 if caught && !fk.catch_ok {
                     fk = fail_kind(0, k);
                 }
-                gen_generator_op(k, rng.below(3), &fk.stmt, fk.name, rng.below(4), caught, &mut live)
+                gen_generator_op(k, rng.below(3), &fk.stmt, fk.name, fk.events, rng.below(4), caught, &mut live)
             }
             4 => {
                 let lg = live[rng.below(live.len())].clone();
@@ -1040,6 +1113,7 @@ fn gen_timeout_history(rng: &mut Rng, mod_dir: &str) -> History {
             ok_value: None,
             residue_class: if name == "in-list" { "builder".into() } else { String::new() },
             adds_tests: 0,
+            gen_check: None,
             tags: vec!["timeout".into(), format!("timeout-shape={name}")],
         });
     }
@@ -1048,7 +1122,7 @@ fn gen_timeout_history(rng: &mut Rng, mod_dir: &str) -> History {
     let mut live = vec![];
     let storage = rng.below(3);
     let yields = rng.below(3);
-    let mut op = gen_generator_op(k, storage, "loop\n  z = 1", "timeout", yields, false, &mut live);
+    let mut op = gen_generator_op(k, storage, "loop\n  z = 1", "timeout", "raise:0", yields, false, &mut live);
     op.err_contains = Some("xecution".into());
     op.tags.push("timeout".into());
     ops.push(op);
@@ -1091,6 +1165,12 @@ fn model_requests(h: &History) -> Vec<String> {
         }
         ntests += op.adds_tests;
         reqs.push(format!("ev {}", ev));
+    }
+    // hook H5: one request per failed generator that stays reachable (answers follow the per-op ones)
+    for op in &h.ops {
+        if let Some((_, req)) = &op.gen_check {
+            reqs.push(req.clone());
+        }
     }
     reqs
 }
@@ -1162,6 +1242,33 @@ fn check_history(
         // (F-C07-2), which L performs as well
         if (st.ref_snap.0, st.ref_snap.1, st.ref_snap.4) != (0, 0, 0) || st.ref_snap.2 > st.snap.2 || st.ref_snap.3 > st.snap.3 {
             fails.push(Failure { kind: "D", name: "C07:residue-after-successful-operations".into(), index: i, detail: ctx(json!({"reference_snapshot": st.ref_snap})) });
+        }
+        // ---- hook H5: every generator whose body has raised so far must be finished, as the model says
+        {
+            let mut j = 0usize;
+            for (oi, o) in h.ops.iter().enumerate() {
+                let Some((key, req)) = &o.gen_check else { continue };
+                let resp = model.get(1 + h.ops.len() + j).cloned().unwrap_or_default();
+                j += 1;
+                if oi > i {
+                    continue;
+                }
+                let m: Vec<usize> = resp.split(' ').filter_map(|x| x.parse().ok()).collect();
+                let Some((_, real)) = st.gens.iter().find(|(k, _)| k == key) else { continue };
+                if m.len() != 4 {
+                    fails.push(Failure { kind: "K", name: "K:C07:Model.Unwind.genResume".into(), index: i, detail: ctx(json!({"generator": key, "model_request": req, "model_response": resp})) });
+                } else if (real.1, real.2, real.3) != (m[0], m[1], m[2]) {
+                    let leftover = real.1 != 0 || real.2 != 0 || real.3 != 0;
+                    fails.push(Failure {
+                        kind: if leftover { "D" } else { "K" },
+                        name: if leftover { "C07:generator-vm-keeps-frames-after-escaped-error".into() } else { "K:C07:Model.Unwind.genResume".into() },
+                        index: i,
+                        detail: ctx(json!({"generator": key, "created_by_op": oi, "impl_generator_vm_sizes": real, "model_request": req,
+                            "model_response_frames_seq_str_finished": resp,
+                            "note": "hook H5: (registers.len, call_stack.len, sequence_builders.len, string_builders.len, register_base) of the generator's VM; theorem C07.generator_escaped_error_finishes says frame count 0 after an escaped error"})),
+                    });
+                }
+            }
         }
         // ---- (K) snapshot vs model
         let Some((pred, conts, placeholders)) = parse_model(&model[i + 1]) else {
@@ -1287,6 +1394,20 @@ impl Ctx {
             if op.failing() {
                 seen_fail = true;
             }
+        }
+        // hook H5 coverage: generator-VM snapshots compared with the model
+        let mut h5 = 0u64;
+        for (i, st) in out.steps.iter().enumerate() {
+            for o in h.ops.iter().take(i + 1) {
+                if let Some((key, _)) = &o.gen_check {
+                    if st.gens.iter().any(|(k, _)| k == key) {
+                        h5 += 1;
+                    }
+                }
+            }
+        }
+        if h5 > 0 {
+            self.rep.bump_by("h5:generator-vm-snapshots-compared", h5);
         }
         self.rep.bump(&format!("history_len={}", (h.ops.len() / 5) * 5));
         if self.rep.samples.len() < 6 && h.ops.len() > 3 {
@@ -1712,6 +1833,7 @@ fn main() {
                             ok_value: Some(format!("ok:s{}", kvh::hex(b"caught"))),
                             residue_class: if builder { "builder".into() } else { String::new() },
                             adds_tests: 0,
+                            gen_check: None,
                             tags: vec!["run-caught".into(), format!("kind={}", fk.name), format!("carrier={}", ca.name), "catch=yes".into()],
                         }
                     } else {
@@ -1727,6 +1849,7 @@ fn main() {
                             ok_value: None,
                             residue_class: if builder { "builder".into() } else { String::new() },
                             adds_tests: 0,
+                            gen_check: None,
                             tags: vec!["run-fail".into(), format!("kind={}", fk.name), format!("carrier={}", ca.name), "catch=no".into()],
                         }
                     };
@@ -1780,7 +1903,7 @@ fn main() {
                     if caught && !fk.catch_ok {
                         continue;
                     }
-                    ops.push(gen_generator_op(k, storage, &fk.stmt, fk.name, yields, caught, &mut live));
+                    ops.push(gen_generator_op(k, storage, &fk.stmt, fk.name, fk.events, yields, caught, &mut live));
                     let lg = live.last().unwrap().clone();
                     ops.push(gen_next_op(&mut rng, &lg));
                     ops.push(gen_next_op(&mut rng, &lg));
